@@ -162,6 +162,9 @@ contract(A + "Action.__exit__", props=["C03", "C02", "C04", "C05", "C07"],
          types={"type": "Any", "exception": "Opt[Exc]", "traceback": "Any"}, returns="none",
          ghosts={"R1": "seqe", "R2": "seqe", "E": "ev"},
          after={"Action.finish#0": [("R1", "R1"), ("R2", "R2"), ("E", "E")]},
+         # C04: the block has been left *before* the end message is written -- whatever finishing logs on the way out (failure reports,
+         # tracebacks of broken extractors) and whatever happens if writing fails sees the previous action as the current one
+         call_tokens={"Action.finish#0": "CTX[me] == old(typed(self._parent_token, 'Token').tok_old)"},
          requires=[("rep-ok", "rep_ok(self)"), ("entered", TOKEN_OK),
                    ("body-restored-context", "CTX[me] == box(self)"),
                    ("not-already-current-when-entered", "typed(self._parent_token, 'Token').tok_old != box(self)"),
